@@ -15,6 +15,7 @@ Terms: `*` or `T<hex>` (`T_` = empty text).  Token: `L/<terms>` or `R/<from>/<to
   glob <terms> <token>                       -> ok <0|1>              (declarative matcher globB)
   specleaf <token> <value>                   -> ok <0|1>              (SV.Spec.Leaf.valMatch of the shared Spec)
   specleafw <token> <value> num=...          -> ok <0|1>              (SV.Spec.Leaf.valMatchWith, reading = the oracle table)
+  bcmp <a> <b>                               -> ok lt|eq|gt           (bytes.Compare as modelled: dictionary / text-range order)
   dval <value>                               -> ok <n> | ok none      (digitsNat: unbounded value of an all-digit string)
   wf <terms>                                 -> ok <0|1>              (hypothesis WF of c13_wildcard_iff_glob)
   rcheck <R/...> <token> num=...             -> ok <n|t> <0|1>        (n = numeric search chosen, t = text)
@@ -114,6 +115,10 @@ def step (line : String) : String :=
     match token? tk, bytes? v, numTable? num with
     | some tk, some v, some tab => "ok " ++ fmtBool ((specLeaf [] tk).valMatchWith (mkPf tab) v)
     | _, _, _ => "bad-op"
+  | ["bcmp", a, b] =>
+    match bytes? a, bytes? b with
+    | some a, some b => "ok " ++ (match bcmp a b with | .lt => "lt" | .eq => "eq" | .gt => "gt")
+    | _, _ => "bad-op"
   | ["dval", v] =>
     match bytes? v with
     | some v => match digitsNat v with
